@@ -190,6 +190,72 @@ func c15PhaseSweep(t *testing.T, rep *report.R, tmaxQ, imaxQ int) {
 	})
 }
 
+// c15LateDrain: histories in which the moment a subnet was last *seen* and the moment its bucket was last *drained* differ, for
+// configurations whose burst takes minutes to refill (burst/rate of 120 s and 200 s): first contact (cost 1) at T0 (7, 22, 37, 52 s after the limiter was made: the clean-up
+// runs once a minute), the rest of the bucket spent D seconds later, silence for R seconds, then the whole burst is asked for again (and once more 1 s later).
+// D in {1, 15, 29, 31, 45, 59} s, R on a 5 s grid up to burst/rate + 35 s, so that the return falls before and after every run
+// of the periodic clean-up that could discard the bucket. Same window bound as c15Run.
+func c15LateDrain(t *testing.T, rep *report.R) {
+	cfgs := []c15Cfg{{1, 120, 0, 0}, {1, 200, 0, 0}, {0.5, 90, 0, 0}}
+	idx := 0
+	synctest.Test(t, func(t *testing.T) {
+		for ci, cfg := range cfgs {
+			limit, burst, _, _ := cfg.eff()
+			for _, TD := range [][2]int{{7, 1}, {7, 15}, {7, 29}, {7, 31}, {7, 45}, {7, 59}, {22, 15}, {22, 29}, {22, 45}, {37, 1}, {37, 15}, {37, 29}, {37, 31}, {52, 15}, {52, 29}, {52, 45}, {52, 59}} {
+				T0, D := TD[0], TD[1]
+				idx++
+				if !report.Owns(idx) {
+					continue
+				}
+				for R := 5; R <= int(float64(burst)/limit)+35; R += 5 {
+					cl := NewClientLimiter(ClientLimiterOpts{Limit: cfg.limit, Burst: cfg.burst})
+					a := c15Addrs[0]
+					start := time.Now()
+					var adm []c15Admit
+					var trace []string
+					ask := func(cost int) {
+						now := time.Since(start)
+						ok := cl.AllowN(a, time.Now(), cost)
+						trace = append(trace, fmt.Sprintf("t=%v cost%d=%v", now, cost, ok))
+						if !ok {
+							return
+						}
+						adm = append(adm, c15Admit{now, cost})
+						sum := 0
+						for j := len(adm) - 1; j >= 0; j-- {
+							sum += adm[j].cost
+							w := (now - adm[j].at).Seconds()
+							if float64(sum) > float64(burst)+limit*w+1e-6 {
+								rep.Violate("C15:limiter:bound-exceeded:late-drain", fmt.Sprintf("cost %d admitted within a %.3fs window, bound burst+rate*window = %.3f\n  config limit=%v burst=%d; history: %s",
+									sum, w, float64(burst)+limit*w, cfg.limit, cfg.burst, strings.Join(trace, " ")), map[string]any{"LateDrain": true})
+								return
+							}
+						}
+					}
+					time.Sleep(time.Duration(T0) * time.Second) // phase of the first contact relative to the clean-up ticker (one run a minute)
+					synctest.Wait()
+					ask(1)
+					time.Sleep(time.Duration(D) * time.Second)
+					synctest.Wait()
+					ask(burst - 1)
+					ask(int(float64(D) * limit)) // what has been refilled meanwhile
+					time.Sleep(time.Duration(R) * time.Second)
+					synctest.Wait()
+					ask(burst)
+					time.Sleep(time.Second)
+					synctest.Wait()
+					ask(burst)
+					ask(1)
+					cl.Close()
+					synctest.Wait()
+					rep.Eval(fmt.Sprintf("late-drain|%d|%d|%d|%d|%d", ci, T0, D, R, len(adm)))
+				}
+				report.Progress()
+			}
+		}
+	})
+}
+
 // c15ManySubnets: isolation does not depend on how many subnets the limiter has seen. n distinct subnets (v4 and v6) each spend
 // their whole burst in the same instant; every one of them is admitted (it is that subnet's first request), and so are the first
 // requests of fresh subnets afterwards.
@@ -260,10 +326,16 @@ func TestVerifC15(t *testing.T) {
 	rep.Rule = fmt.Sprintf("E3 (virtual clock, real gc ticker): (buckets) configs limit{1,20} x burst{omitted,1,5,200} with default masks x all arrival sequences of length <=%d over 3 addresses in 2 subnets x delay {0, 1/limit, 1s, 61s, 121s} x cost {1,3,15,burst}; "+
 		"(masks) v4_mask {omitted,16,21,24,25,27,32} x v6_mask {omitted,48,50,53,64} with limit=burst=1 x all ordered pairs over 30 addresses (a v4 base, its v4-mapped form and a v6 base, each with one bit flipped at positions around every mask boundary, plus cross-family aliases: v6 addresses whose leading octets equal a v4 address and vice versa) at one instant; "+
 		"oracle: over every window the admitted cost per property-defined subnet <= burst + rate*window; a request within the budget left by its own subnet's traffic is never refused; "+
-		"(phases) configs (rate,burst) {(20,50),(20,default),(3,10),(7,10),(1,5),(0.5,3)}: spend the whole burst at T, stay silent for I, ask for the whole burst again (twice) for every T in 0..%ds and I in 0.25..%ds on a 0.25 s grid, i.e. at every phase of the periodic clean-up; (many subnets) %d distinct subnets (v4 /24 and v6 /48 alternating) each spend their burst in one instant: every first request is admitted", maxLen, report.ParamInt("PHASE_T", 260)/4, report.ParamInt("PHASE_I", 40)/4, report.ParamInt("SUBNETS", 140000))
+		"(phases) configs (rate,burst) {(20,50),(20,default),(3,10),(7,10),(1,5),(0.5,3)}: spend the whole burst at T, stay silent for I, ask for the whole burst again (twice) for every T in 0..%ds and I in 0.25..%ds on a 0.25 s grid, i.e. at every phase of the periodic clean-up; (late drain) configs (rate,burst) {(1,120),(1,200),(0.5,90)}: first contact at phase {7,22,37,52} s of the once-a-minute clean-up, rest of the bucket spent D in {1,15,29,31,45,59} s later, silence R on a 5 s grid up to burst/rate+35 s, whole burst asked again; (many subnets) %d distinct subnets (v4 /24 and v6 /48 alternating) each spend their burst in one instant: every first request is admitted", maxLen, report.ParamInt("PHASE_T", 260)/4, report.ParamInt("PHASE_I", 40)/4, report.ParamInt("SUBNETS", 140000))
 	if rp := report.ReplayFile(); rp != nil {
 		var x struct{ Phase bool }
 		rp.Decode(&x)
+		var z struct{ LateDrain bool }
+		rp.Decode(&z)
+		if z.LateDrain {
+			c15LateDrain(t, rep)
+			return
+		}
 		var y struct{ Many int }
 		rp.Decode(&y)
 		if y.Many > 0 {
@@ -317,6 +389,7 @@ func TestVerifC15(t *testing.T) {
 	}
 	c15Delays = saved
 	if rp := report.ReplayFile(); rp == nil {
+		c15LateDrain(t, rep)
 		c15PhaseSweep(t, rep, report.ParamInt("PHASE_T", 260), report.ParamInt("PHASE_I", 40))
 		if sh, _ := report.Shard(); sh == 0 {
 			c15ManySubnets(t, rep, report.ParamInt("SUBNETS", 140000))
